@@ -447,7 +447,7 @@ package bbolt
 //@   loop 0 invariant [only] forall j common.Pgid :: has(reachable, j) ==> old(has(reachable, j)) || (p.id <= j && j < p.id + i)
 //@   loop 0 invariant [dup] (exists j common.Pgid :: p.id <= j && j < p.id + i && old(has(reachable, j))) ==> sent(ch) > old(sent(ch))
 //@   loop 0 invariant [nodup] (forall j common.Pgid :: p.id <= j && j < p.id + i ==> !old(has(reachable, j))) && p.id <= hwm ==> sent(ch) == old(sent(ch))
-//@   loop 0 invariant [mono] sent(ch) >= old(sent(ch))
+//@   loop 0 invariant [mono] sent(ch) >= old(sent(ch)) && (p.id > hwm ==> sent(ch) > old(sent(ch)))
 //@   loop 0 invariant [freed] isFreed <==> (exists j common.Pgid :: p.id <= j && j < p.id + i && isfreed(freed, j))
 //@   loop 0 invariant [page] p.id == old(p.id) && p.overflow == old(p.overflow) && p.flags == old(p.flags)
 //@   modifies mapof(reachable)
